@@ -44,7 +44,7 @@ pub fn plan_huge(prop: &str, tier: Tier) -> u64 {
 /// Runs on large inputs (more than 65 536 elements), appended after the other parts.
 pub fn plan_big(prop: &str, tier: Tier) -> u64 {
     match (prop, tier) {
-        ("C02" | "C03", Tier::Quick) => 96,
+        ("C02" | "C03", Tier::Quick) => 160,
         ("C02" | "C03", Tier::Thorough) => 1500,
         _ => 0,
     }
